@@ -16,7 +16,8 @@ let mode_of_char = function 'r' | 'h' -> R | 'w' -> W | _ -> RW
 
 let parse_items owner body =
   (* "~" only delays the inserting thread of the harness (late flush): every timing is an event list of the model *)
-  let fields = List.filter (fun t -> t <> "" && t <> "~") (List.map String.trim (String.split_on_char ';' body)) in
+  (* "%r" delays the inserting thread of rank r (the others run ahead): timing only as well *)
+  let fields = List.filter (fun t -> t <> "" && t <> "~" && t.[0] <> '%') (List.map String.trim (String.split_on_char ';' body)) in
   List.map (fun t ->
     if t = "!" then OWait
     else if t = "F*" then OFlushAll
@@ -46,6 +47,10 @@ let () =
     | Some bar ->
       let head = words (String.sub line 0 bar) in
       let body = String.sub line (bar + 1) (String.length line - bar - 1) in
+      (* the optional last field is the size of a tile in bytes: the model works on tile values *)
+      let head = match head with
+        | [a; b; c; d; e; f; g; h; i; _bytes] -> [a; b; c; d; e; f; g; h; i]
+        | _ -> head in
       (match head with
        | ["dtdflush"; _ranks; ndata; _threads; _sched; window; threshold; spin; owners] ->
          let ndata = int_of_string ndata and window = int_of_string window
